@@ -41,7 +41,8 @@ def r1_freeze(ctx, F, vb):
         traced = [p.split(":")[0].strip() for p in i["preds"]
                   if re.search(r":\s*(starlark::)?values::freeze_branded::FreezeBranded", p)]
         reads = field_uses_of(F, f, adt.path, "_1", depth=3)
-        req = [fd for fd in adt.fields if vb.ty(fd["ty"], adt.crate, traced)]
+        from kern import substitute_generics
+        req = [fd for fd in adt.fields if vb.ty(substitute_generics(adt, i["selfty"], fd["ty"]), adt.crate, traced)]
         for fd in req:
             k = (fd["variant"] + "." + fd["name"]) if adt.kind == "Enum" else fd["name"]
             ctx.check(k in reads, "C04.R1", "freeze-covers:%s:%s" % (adt.path, k),
